@@ -203,26 +203,37 @@ def execute(case):
     return [bad("C04.replay", "pure-level cases are replayed by re-running the check")]
 
 
-def exec_set(case):
+def build_set(case):
+    """-> (seqs, idx, predicted_collision, (cfg, font, data) or exception)"""
     from vmc.drive import pipe, cli
 
     idx = case["members"]
     seqs = [UNIVERSE[i] for i in idx]
     fmt = case["fmt"]
+    style = case.get("style", "emoji_u")
     over = {"color_format": fmt, "keep_glyph_names": case["keep"], "output_file": "Font.otf" if fmt.startswith("cff") else "Font.ttf"}
     if fmt in ("cbdt", "sbix"):
         over.update(use_pngquant=False, use_zopflipng=False)
-    srcs = [(stem(s, "emoji_u") + ".svg", art(i)) for i, s in zip(idx, seqs)]
+    srcs = [(stem(s, style) + ".svg", art(i)) for i, s in zip(idx, seqs)]
     # 'g' followed by a sequence whose name gets the g_ prefix: collides with that sequence's
     # glyph -- a source, or the blank glyph of a sequence-only codepoint
     predicted_collision = any(len(s) > 1 and g_prefix_collision(s, s[1:]) for s in seqs)
     w = cli.mkscratch("c04")
     try:
-        cfg, font, data = pipe.build(w, srcs, over)
+        return seqs, idx, predicted_collision, pipe.build(w, srcs, over)
     except Exception as e:
+        return seqs, idx, predicted_collision, e
+
+
+def exec_set(case):
+    fmt = case["fmt"]
+    seqs, idx, predicted_collision, res = build_set(case)
+    if isinstance(res, Exception):
+        e = res
         if predicted_collision:
             return [bad("C04.distinct-sources-distinct-glyphs", f"build rejects the set: {type(e).__name__}: {e}", sig="g-prefix-collision")]
         return [bad("C04.build", f"{type(e).__name__}: {e}")]
+    cfg, font, data = res
     out = []
     order = font.getGlyphOrder()
     if order[0] != ".notdef" or glyph_is_blank(font, ".notdef"):
@@ -300,7 +311,8 @@ def run(report, tier, only=None):
         for a, b in itertools.combinations(range(n), 2):
             for fmt in fmts:
                 for keep in (False, True):
-                    cases.append({"kind": "set", "members": [a, b], "fmt": fmt, "keep": keep})
+                    for style in ("emoji_u", "dash"):
+                        cases.append({"kind": "set", "members": [a, b], "fmt": fmt, "keep": keep, "style": style})
         triples = list(itertools.combinations(range(n), 3))
         tf = ["glyf_colr_1", "picosvg", "cbdt"] if tier == "thorough" else ["glyf_colr_1"]
         if tier != "thorough":
@@ -309,7 +321,7 @@ def run(report, tier, only=None):
             triples = [t for t in triples if len(special & set(t)) >= 2]
         for t in triples:
             for fmt in tf:
-                cases.append({"kind": "set", "members": list(t), "fmt": fmt, "keep": False})
+                cases.append({"kind": "set", "members": list(t), "fmt": fmt, "keep": False, "style": "dash" if sum(t) % 2 else "emoji_u"})
         listing.run(report, cases, execute, timeout=300, transitions_per_case=1)
         report.extra["font_level_sets"] = len(cases)
     if only in (None, "advance"):
